@@ -188,6 +188,14 @@ func (x *c10World) events() []string {
 	if x.cfg.Removed && x.finalizeOn {
 		ev = append(ev, "reconfigure")
 	}
+	if !x.done["child-unmatch"] {
+		for _, c := range x.Sim.All(kit.Leaf) {
+			if kit.ControllerUID(c) == kit.UID(p) && kit.Str(c, "metadata", "labels", "controller-uid") == kit.UID(p) {
+				ev = append(ev, "child-unmatch") // somebody relabels an owned child: it no longer matches the selector
+				break
+			}
+		}
+	}
 	if x.finalizeOn && !x.done["sync!conflict"] {
 		ev = append(ev, "sync!conflict")
 	}
@@ -209,7 +217,7 @@ func contains(l []string, s string) bool {
 func (x *c10World) apply(ev string) {
 	x.hist = append(x.hist, ev)
 	switch ev {
-	case "create", "edit-spec", "foreign-finalizer", "drop-foreign-finalizer", "sync!conflict", "sync!500":
+	case "create", "edit-spec", "child-unmatch", "foreign-finalizer", "drop-foreign-finalizer", "sync!conflict", "sync!500":
 		x.done[ev] = true
 	}
 	switch ev {
@@ -225,6 +233,13 @@ func (x *c10World) apply(ev string) {
 				kit.Labels(o, "app", "x")
 			}
 		})
+	case "child-unmatch":
+		for _, c := range x.Sim.All(kit.Leaf) {
+			if kit.ControllerUID(c) == kit.UID(x.parent()) {
+				x.Sim.Edit(kit.Leaf, kit.NS(c), kit.Name(c), func(o map[string]interface{}) { kit.Labels(o, "controller-uid", "moved-away") })
+				break
+			}
+		}
 	case "edit-spec":
 		x.Sim.Edit(kit.Thing, "n1", "p", func(o map[string]interface{}) { kit.Field(o, "2", "spec", "template", "v") })
 	case "delete-background":
